@@ -101,6 +101,10 @@ func (e *Enc) noteCall(name string, results []Val) {
 	if len(results) > 0 && results[0].T.S != "" && results[0].Tuple == nil {
 		k := "last|" + name + "|" + string(results[0].T.Sort)
 		e.cur.heap[k] = results[0].T
+		if e.lastTyp == nil {
+			e.lastTyp = map[string]types.Type{}
+		}
+		e.lastTyp[name] = results[0].Typ
 		if _, ok := e.heap0[k]; !ok {
 			e.heap0[k] = e.fresh("last0", results[0].T.Sort)
 		}
@@ -306,6 +310,7 @@ func (e *Enc) applyCall(name, kind string, fn *ssa.Function, fc *FuncContract, c
 		}
 	}
 	// caller-side call-site obligations:  at <callee> requires ...
+	classified := 0
 	if e.fc != nil {
 		ord := e.callOrdinal(name, instrOf(c, e.curBlock))
 		for i, at := range e.fc.At {
@@ -313,6 +318,7 @@ func (e *Enc) applyCall(name, kind string, fn *ssa.Function, fc *FuncContract, c
 				continue
 			}
 			e.atHit[i] = true
+			classified++
 			cenv := e.fnEnv(pre)
 			for k, v := range env.vars {
 				if _, clash := cenv.vars[k]; !clash {
@@ -343,6 +349,10 @@ func (e *Enc) applyCall(name, kind string, fn *ssa.Function, fc *FuncContract, c
 		}
 	}
 
+	// declared sinks: a call that no clause of the calling function classifies
+	if props, ok := e.p.Contracts.Sinks[name]; ok && classified == 0 && e.prefix == "" && !(e.fc != nil && e.fc.Flags["not-a-template-node"]) {
+		e.oblige("sink", name, pos, False, props, "call to the output sink "+name+" is not classified by any `at` clause of "+e.name)
+	}
 	// a call from execution code into the compile API (where execution reachability is cut) needs a frame contract
 	if e.frameOn() && fn != nil && fn.Blocks != nil && e.p.isCompileEntry(fn) {
 		if fc == nil || !fc.HasAssigns {
@@ -1218,6 +1228,16 @@ func (e *Enc) loopHeader(b *ssa.BasicBlock, li *loopInfo, preds []*ssa.BasicBloc
 	for _, cd := range li.cands {
 		if !cd.dead {
 			e.assume(cd.mk(e, nil, e.cur))
+		}
+	}
+	// a slice variable all of whose backing arrays are made by this function (make/append) holds nil or
+	// an array of this activation, also after any number of iterations
+	for _, phi := range phis {
+		for _, f := range e.families {
+			if f.memberS[phi] {
+				pv := e.termOf(phi)
+				e.assume(Or(Eq(SliceArr(pv), IntLit(0)), Ge(Birth(SliceArr(pv)), e.now0)))
+			}
 		}
 	}
 	// a pointer carried around the loop refers to an object that satisfies its type's invariant
